@@ -3,7 +3,7 @@ From Coq Require Import List ZArith Bool.
 From NX Require Import Bytes Reasm Reasm_proofs Trans Worker Worker_proofs Handshake Handshake_proofs
   Pinned_comm Pinned_thread.
 From Coq Require Import String.
-From NX Require PyLite Src_all Src_handshake_base Src_handshake_devinfo Src_handshake_proofs.
+From NX Require PyLite Src_all Src_serialframe_proofs Src_reasm_proofs Src_handshake_base Src_handshake_devinfo Src_handshake_proofs.
 Import ListNotations.
 Open Scope nat_scope.
 
@@ -59,6 +59,14 @@ Section OnSource.
 Import PyLite Src_all Src_handshake_base Src_handshake_devinfo Src_handshake_proofs.
 Open Scope string_scope.
 Open Scope nat_scope.
+
+(** the receive routine returns, whatever is buffered and whatever the link still delivers (so the
+    worker gets back to its loop and sees the stop flag): the interpreted _read_frame never runs out
+    of fuel above a bound linear in the bytes and chunks in flight *)
+Theorem C10_read_frame_returns_src : forall fuel prev l,
+  5 + Src_reasm_proofs.measure prev l <= fuel ->
+  call_method program fuel (Src_reasm_proofs.ch prev l) "_read_frame" [] <> Fuel.
+Proof. exact Src_reasm_proofs.read_frame_no_fuel. Qed.
 
 Theorem C10_devinfo_returns_src : forall n w p d q qs,
   264 <= n ->
